@@ -309,7 +309,7 @@ pub fn replay(o: &Opts) -> R<()> {
             if r % 2 == 1 {
                 shuffled.reverse();
             }
-            let out = if r < 2 { run_unify(nvars, &shuffled, 100_000) } else { let pi = random_perm(&mut prng, nvars); run_unify_renamed(nvars, &shuffled, 100_000, &pi) };
+            let out = if r < 2 { run_unify(nvars, &shuffled, 20_000) } else { let pi = random_perm(&mut prng, nvars); run_unify_renamed(nvars, &shuffled, 20_000, &pi) };
             let norm = norm_outcome(&out.vars, nvars);
             if !out.stopped && out.panic.is_none() && !allowed.contains(&norm) {
                 n_outside += 1;
@@ -599,7 +599,7 @@ pub fn random(o: &Opts) -> R<()> {
             if r > 0 {
                 s.shuffle(&mut rng);
             }
-            let out = if r == 0 { run_unify(nv, &s, 200_000) } else { let pi = random_perm(&mut rng, nv); run_unify_renamed(nv, &s, 200_000, &pi) };
+            let out = if r == 0 { run_unify(nv, &s, 20_000) } else { let pi = random_perm(&mut rng, nv); run_unify_renamed(nv, &s, 20_000, &pi) };
             if out.stopped {
                 stopped += 1;
             }
